@@ -1,5 +1,5 @@
 SPECIFICATION Spec
-CONSTANTS Variant = "no_shift"  MaxT = 3  Drives <- DrivesQ  InvEps <- IeQ  CellKinds <- KindsQ
+CONSTANTS Variant = "no_shift"  MaxT = 3  Drives <- DrivesQ  InvEps <- IeQ  CellKinds <- KindsQ  Losses <- LossQ
 INVARIANT TypeOK
 INVARIANT History
 INVARIANT Recurrence
